@@ -63,6 +63,159 @@ pub fn big_pool() -> J {
     J::Array(v)
 }
 
+/// C15 over STRUCTURAL histories: a pool whose character data is harmless node by node and dangerous in combination
+/// (`]]` next to `>`, an entity whose replacement text holds markup next to an attribute), so that the offending
+/// sequence only arises from insertions.
+const DOC15: &str = "<!DOCTYPE r [<!ENTITY e \"&#60;k/>\"><!ENTITY f \"v\">]><r y=\"1\"><a>]]</a><b>t</b>&f;</r>";
+
+pub fn c15_pool() -> J {
+    let mut v = vec![
+        n("doc", 1, "", "doc", &[], DOC15),          // 1
+        n("doctype", 1, "", "parsed", &[1], ""),     // 2
+        n("elem", 1, "", "parsed", &[2], ""),        // 3 r
+        n("attr", 1, "y", "parsed", &[2, -1], ""),   // 4
+        n("elem", 1, "", "parsed", &[2, 1], ""),     // 5 a
+        n("text", 1, "", "parsed", &[2, 1, 1], ""),  // 6 "]]"
+        n("elem", 1, "", "parsed", &[2, 2], ""),     // 7 b
+        n("text", 1, "", "parsed", &[2, 2, 1], ""),  // 8 "t"
+        n("eref", 1, "", "parsed", &[2, 3], ""),     // 9 &f;
+        n("text", 1, "", "parsed", &[2, -1, 1], ""), // 10 value of y
+        n("text", 1, "", "create", &[], "]]"),       // 11
+        n("text", 1, "", "create", &[], ">"),        // 12
+        n("text", 1, "", "create", &[], "]"),        // 13
+        n("text", 1, "", "create", &[], "]>"),       // 14
+        n("cdata", 1, "", "create", &[], "]]"),      // 15
+        n("comment", 1, "", "create", &[], "c"),     // 16
+        n("eref", 1, "", "create", &[], "e"),        // 17
+        n("eref", 1, "", "create", &[], "f"),        // 18
+        n("elem", 1, "", "create", &[], "g"),        // 19
+        n("attr", 1, "x", "create", &[], "x"),       // 20
+        n("text", 1, "", "create", &[], "\""),       // 21
+        n("text", 1, "", "create", &[], "'"),        // 22
+    ];
+    for _ in 0..2 {
+        v.push(n("text", 1, "", "spare", &[], ""));
+    }
+    J::Array(v)
+}
+
+/// Content signature with maximal runs of character data merged (text, CDATA; entity references stay what they are):
+/// comparable between a live document with adjacent / empty Text nodes and a fresh parse of its serialization.
+fn content_sig(nd: &XmlNode) -> Result<J, String> {
+    use xml_dom::{Attr, CharacterData, ProcessingInstruction};
+    let e = |x: xml_dom::error::Error| x.to_string();
+    let mut kids: Vec<J> = vec![];
+    let mut run: Option<String> = None;
+    for c in nd.child_nodes().iter() {
+        let chars = match &c {
+            XmlNode::Text(t) => Some(t.data().map_err(e)?),
+            XmlNode::CData(t) => Some(t.data().map_err(e)?),
+            XmlNode::ExpandedText(t) => Some(t.data().map_err(e)?),
+            // a reference denotes its replacement text (a re-parse turns "&gt;" into a reference node, the DOM had
+            // a character): character data is compared as characters
+            XmlNode::EntityReference(r) => Some(r.node_value().map_err(e)?.unwrap_or_default()),
+            _ => None,
+        };
+        if let Some(s) = chars {
+            run = Some(run.unwrap_or_default() + &s);
+            continue;
+        }
+        if let Some(r) = run.take() {
+            if !r.is_empty() {
+                kids.push(json!(["chars", string_to_cps(&r)]));
+            }
+        }
+        match &c {
+            XmlNode::Comment(t) => kids.push(json!(["comment", string_to_cps(&t.data().map_err(e)?)])),
+            XmlNode::PI(p) => kids.push(json!(["pi", string_to_cps(&p.target()), string_to_cps(&p.data())])),
+            XmlNode::Element(_) => kids.push(content_sig(&c)?),
+            XmlNode::DocumentType(_) => {}
+            other => kids.push(json!(["other", format!("{:?}", other.node_type())])),
+        }
+    }
+    if let Some(r) = run.take() {
+        if !r.is_empty() {
+            kids.push(json!(["chars", string_to_cps(&r)]));
+        }
+    }
+    let mut attrs: Vec<(String, String)> = vec![];
+    if let Some(m) = nd.attributes() {
+        for a in m.iter() {
+            attrs.push((a.name(), a.value().map_err(e)?));
+        }
+    }
+    attrs.sort();
+    Ok(json!(["node", string_to_cps(&nd.node_name()),
+              attrs.iter().map(|(n, v)| json!([string_to_cps(n), string_to_cps(v)])).collect::<Vec<_>>(), kids]))
+}
+
+/// maximal runs of adjacent Text children (Text only: not CDATA, not references) anywhere in the tree: what the
+/// printer writes back to back as character data
+fn text_runs(nd: &XmlNode, out: &mut Vec<J>) {
+    use xml_dom::CharacterData;
+    let mut run: Option<String> = None;
+    for c in nd.child_nodes().iter() {
+        match &c {
+            XmlNode::Text(t) => {
+                run = Some(run.unwrap_or_default() + &t.data().unwrap_or_default());
+            }
+            other => {
+                if let Some(r) = run.take() {
+                    out.push(string_to_cps(&r));
+                }
+                if let XmlNode::Element(_) = other {
+                    text_runs(other, out);
+                }
+            }
+        }
+    }
+    if let Some(r) = run.take() {
+        out.push(string_to_cps(&r));
+    }
+}
+
+/// after a call that reported success and changed the state: print, parse again, describe both
+fn reprint(w: &World, call: &J, out: &mut dyn Write) -> usize {
+    let doc = match w.node(1) {
+        XmlNode::Document(d) => d.clone(),
+        _ => return 0,
+    };
+    // a document without a document element has no serialization to speak of
+    if xml_dom::Document::document_element(&doc).is_err() {
+        return 0;
+    }
+    let d1 = doc.clone();
+    let live = guarded(move || content_sig(&d1.as_node()));
+    let text = w.print();
+    let mut ev = json!({"event": "reprint", "call": call, "printed": text.is_some(), "reparsed": false, "live_ok": false,
+                        "re_ok": false, "live": [], "re": [], "text": string_to_cps(text.as_deref().unwrap_or(""))});
+    if let Ok(Ok(l)) = &live {
+        ev["live"] = l.clone();
+        ev["live_ok"] = json!(true);
+    }
+    let d3 = doc.clone();
+    ev["text_runs"] = match guarded(move || {
+        let mut v = vec![];
+        text_runs(&d3.as_node(), &mut v);
+        v
+    }) {
+        Ok(v) => J::Array(v),
+        Err(_) => json!([]),
+    };
+    if let Some(t) = text {
+        let r = guarded(move || xml_dom::XmlDocument::from_raw(&t).map(|(rest, d)| (rest.is_empty(), d)).map_err(|e| e.to_string()));
+        if let Ok(Ok((true, d2))) = r {
+            ev["reparsed"] = json!(true);
+            if let Ok(Ok(s)) = guarded(move || content_sig(&d2.as_node())) {
+                ev["re"] = s;
+                ev["re_ok"] = json!(true);
+            }
+        }
+    }
+    writeln!(out, "{}", ev).unwrap();
+    1
+}
+
 const BATTERY: &[&str] = &[
     "//node()", "//*", "//@*", "//text()", "//comment()", "//processing-instruction()",
     "/r//*[1]", "//*[last()]", "//a/following::node()", "//d/preceding::node()",
@@ -254,7 +407,8 @@ pub fn record(args: &[String]) -> i32 {
     let len: usize = arg_value(args, "--len").and_then(|v| v.parse().ok()).unwrap_or(100);
     let seed: u64 = arg_value(args, "--seed").and_then(|v| v.parse().ok()).unwrap_or(1);
     let with_q = arg_flag(args, "--queries");
-    let pool = big_pool();
+    let with_c15 = arg_flag(args, "--c15");
+    let pool = if with_c15 { c15_pool() } else { big_pool() };
     let mut out = open_out(outp);
     writeln!(out, "{}", json!({"event": "pool", "pool": pool})).unwrap();
     if let Some(wd) = arg_value(args, "--watch") {
@@ -276,7 +430,20 @@ pub fn record(args: &[String]) -> i32 {
         let mut hist: Vec<J> = vec![];
         let mut live_ctx = xml_xpath::eval::model::Context::default();
         for _ in 0..len {
-            let c = random_call(&w, &mut rng);
+            let mut c = random_call(&w, &mut rng);
+            if with_c15 {
+                // the DOCTYPE stays where it is: a document whose declarations were taken away while references to them
+                // remain is outside C15's quantifier (creation, insertion and data-editing calls)
+                let touches_doctype = |c: &J| [&c["n"], &c["old"]].iter().any(|x| x.as_u64() == Some(2));
+                let mut tries = 0;
+                while touches_doctype(&c) && tries < 20 {
+                    c = random_call(&w, &mut rng);
+                    tries += 1;
+                }
+                if touches_doctype(&c) {
+                    continue;
+                }
+            }
             heartbeat(|| json!({"event": "crash", "call": c, "calls": hist}).to_string());
             hist.push(c.clone());
             let outc = w.exec_mut(&c);
@@ -286,6 +453,9 @@ pub fn record(args: &[String]) -> i32 {
             steps += 1;
             if with_q && state_only(&post) != state_only(&pre) {
                 nq += queries(&w, &post, &mut *out, &mut live_ctx);
+            }
+            if with_c15 && outc.get("ok").is_some() && state_only(&post) != state_only(&pre) {
+                nq += reprint(&w, &c, &mut *out);
             }
             pre = post;
         }
@@ -333,7 +503,9 @@ pub fn rerun(args: &[String]) -> i32 {
         }
     }
     let pre = w.project();
-    if ev["event"] == "query" {
+    if ev["event"] == "reprint" {
+        reprint(&w, &ev["call"], &mut *out);
+    } else if ev["event"] == "query" {
         queries(&w, &pre, &mut *out, &mut live_ctx);
     } else {
         let outc = w.exec_mut(&ev["call"]);
